@@ -1,6 +1,6 @@
-\* exhaustive: core S, stationary-flag settings {} and {G,P}, tracking on and off, depth 5
-CONSTANTS NL = 4  NA0 = 3  NP0 = 1  NF = 2  MB = 3  MaxCascade = 3  MaxLevel = 5  ReAdd = TRUE
-CONSTANTS Layout <- LayoutS  Place <- PlaceS  SFlagSets <- FlagsG2  TrackSet <- Both  Go <- GoBounded
+\* exhaustive: core S, stationary-flag setting {G,P}, built and database-loaded, tracking on and off, depth 5
+CONSTANTS NL = 4  NA0 = 3  NP0 = 1  NF = 2  MB = 3  MaxCascade = 3  MaxLoop = 3  MaxChain = 2  MaxLevel = 5  ReAdd = TRUE
+CONSTANTS Layout <- LayoutS  Place <- PlaceS  SFlagSets <- FlagsGPonly  TrackSet <- Both  DbSet <- Both  Go <- GoBounded
 INIT Init
 NEXT Next
 CONSTRAINT Bound
@@ -19,9 +19,12 @@ INVARIANT ContentsUnchanged
 INVARIANT BlocksPartition
 INVARIANT BlockOrderKept
 INVARIANT NoFlagsNoExchange
+INVARIANT LookupsAgree
 PROPERTY PlacedWhereAsked
 PROPERTY StationaryStay
 PROPERTY RefusalsChangeNothing
 PROPERTY DischargeDestination
 PROPERTY MovesCounted
+PROPERTY QueriesChangeNothing
+PROPERTY LabelsKept
 CHECK_DEADLOCK FALSE
